@@ -72,6 +72,7 @@ type vfWSRefEvent struct {
 	PingsSeen  int    // number of ping events before the first frame of this message
 	PingsEnd   int    // msg: number of ping events before the end of the message (or the terminal condition)
 	Partial    bool   // msg: not finished when the terminal condition hit (Status then describes the prefix)
+	EarlyFinal bool   // msg: the deflate stream ended (BFINAL) before the end of the message payload
 	FrameIdx   int    // index (in Frames) of the first frame of the event
 }
 
@@ -165,6 +166,12 @@ func vfWSRefCloseCodeClass(code int) int {
 // the stream must then end cleanly at a block boundary. complete=false: data is a prefix, "need more input" is
 // reported as partial. limit>0 bounds the output: as soon as more than limit octets come out the status is over-limit.
 func vfWSRefInflate(data []byte, complete bool, limit int64) ([]byte, string) {
+	out, st, _ := vfWSRefInflate2(data, complete, limit)
+	return out, st
+}
+
+// vfWSRefInflate2 additionally reports whether the deflate stream ended (BFINAL block) before the end of data.
+func vfWSRefInflate2(data []byte, complete bool, limit int64) ([]byte, string, bool) {
 	in := append([]byte{}, data...)
 	if complete {
 		in = append(in, 0x00, 0x00, 0xff, 0xff)
@@ -172,7 +179,8 @@ func vfWSRefInflate(data []byte, complete bool, limit int64) ([]byte, string) {
 		// without it a well-formed sync-flushed stream is indistinguishable from one cut in the middle of a block.
 		in = append(in, 0x01, 0x00, 0x00, 0xff, 0xff)
 	}
-	fr := flate.NewReader(bytes.NewReader(in))
+	src := bytes.NewReader(in) // an io.ByteReader: the inflater consumes exactly what it needs
+	fr := flate.NewReader(src)
 	defer fr.Close()
 	var out []byte
 	buf := make([]byte, 32*1024)
@@ -180,16 +188,16 @@ func vfWSRefInflate(data []byte, complete bool, limit int64) ([]byte, string) {
 		n, err := fr.Read(buf)
 		out = append(out, buf[:n]...)
 		if limit > 0 && int64(len(out)) > limit {
-			return out[:limit], vfWSRefMsgOverLimit
+			return out[:limit], vfWSRefMsgOverLimit, false
 		}
 		if err == io.EOF {
-			return out, vfWSRefMsgOK
+			return out, vfWSRefMsgOK, src.Len() > 0
 		}
 		if err != nil {
 			if !complete && errors.Is(err, io.ErrUnexpectedEOF) {
-				return out, vfWSRefMsgPartial
+				return out, vfWSRefMsgPartial, false
 			}
-			return out, vfWSRefMsgCorrupt
+			return out, vfWSRefMsgCorrupt, false
 		}
 	}
 }
@@ -208,9 +216,10 @@ func vfWSRefDecode(cfg vfWSRefConfig, in []byte) *vfWSRefResult {
 		cur.Partial = partial
 		cur.PingsEnd = pings
 		if cur.Compressed {
-			out, st := vfWSRefInflate(cur.Wire, !partial, cfg.DecompLimit)
+			out, st, early := vfWSRefInflate2(cur.Wire, !partial, cfg.DecompLimit)
 			cur.Payload = out
 			cur.Status = st
+			cur.EarlyFinal = early || (partial && st == vfWSRefMsgOK)
 			// partial && st==ok: a BFINAL block was met inside the prefix; an inflater ignores everything after
 			// it, so a streaming reader may legitimately hand the message out before its last frame arrived.
 		} else {
